@@ -124,6 +124,21 @@ theorem bm_output_certified (c : BchInst) (hc : c ∈ Generated.C03B.instances) 
     (hd : weight c.n (out ^^^ (encode c.G msg ^^^ e)) ≤ t) : out = encode c.G msg :=
   BMProofs.bm_output_certified c (C03.bch_ok c hc) t ht msg e out he hw hout hz hd
 
+/-- **single-error-correcting regime (t = 1), every certified BCH instance with δ ≥ 3 — every length, message, pattern of weight ≤ 1**:
+the tabular recursion returns `1 + S₁x` (symbolic evaluation of the model), the root search finds exactly the error position
+(order of `α`), code words are left untouched -/
+theorem bm_corrects_t1 (c : BchInst) (hc : c ∈ Generated.C03B.instances) (hd : 2 < c.delta) (msg e : Nat) (hm : msg < 2 ^ c.k)
+    (he : e < 2 ^ c.n) (hw : weight c.n e ≤ 1) :
+    invEncode c.R (Kaira.BM.correct c.P c.m 1 c.n (encode c.G msg ^^^ e)) = msg := by
+  rw [BMProofs.bm_corrects_t1 c (C03.bch_ok c hc) hd msg e he hw]
+  have f := BCHBound.facts_of_ok c (C03.bch_ok c hc)
+  exact roundtrip c.G c.R f.hunit msg (by rwa [f.hGl])
+
+/-- code words are left untouched for every `t` within the design distance -/
+theorem bm_no_error (c : BchInst) (hc : c ∈ Generated.C03B.instances) (t : Nat) (ht : 2 * t < c.delta) (msg : Nat) :
+    Kaira.BM.correct c.P c.m t c.n (encode c.G msg) = encode c.G msg :=
+  BMProofs.bm_no_error c (C03.bch_ok c hc) t ht msg
+
 /-- instances small enough for the kernel to run the decoder on every light pattern -/
 def bmSmall (c : BchInst) : Bool := decide (c.n ≤ 15) && decide ((c.delta - 1) / 2 ≤ 1) && decide (1 ≤ c.delta)
 
